@@ -61,6 +61,7 @@ class Ctx(object):
     def _site(self, site):
         if hasattr(site, "qual"):
             self.analysed["functions"].add(site.qual)
+            self._last_line = getattr(site.node, "lineno", 0)
             return site.qual, site.module.relpath
         if isinstance(site, str) and site in self.repo.funcs:
             self.analysed["functions"].add(site)
@@ -75,13 +76,15 @@ class Ctx(object):
                                            getattr(construct, "lineno", 0), f, nontrivial))
         self.analysed["rules"][rule] = self.analysed["rules"].get(rule, 0) + 1
 
-    def violated(self, rule, site, construct, what, witness=None, line=0):
+    def violated(self, rule, site, construct, what="", witness=None, line=0):
         q, f = self._site(site)
-        self.obligations.append(Obligation(self.prop, rule, q, _ctext(construct), VIOLATED, what, witness,
-                                           line or getattr(construct, "lineno", 0), f, True))
+        self._last_line = 0
+        q, f = self._site(site)
+        self.obligations.append(Obligation(self.prop, rule, q, _ctext(construct), VIOLATED, what or _ctext(construct), witness,
+                                           line or getattr(construct, "lineno", 0) or self._last_line, f, True))
         self.analysed["rules"][rule] = self.analysed["rules"].get(rule, 0) + 1
 
-    def check(self, ok, rule, site, construct, what, witness=None, line=0):
+    def check(self, ok, rule, site, construct, what="", witness=None, line=0):
         if ok:
             self.holds(rule, site, construct, what)
         else:
